@@ -31,7 +31,7 @@ fn minter() -> mpsc::Sender<mpsc::Sender<Id>> {
     tx
 }
 
-async fn run_case(acts: &str, minters: Arc<Vec<mpsc::Sender<mpsc::Sender<Id>>>>) -> String {
+async fn run_case(acts: &str, abort: bool, minters: Arc<Vec<mpsc::Sender<mpsc::Sender<Id>>>>) -> String {
     let pidfile = std::env::temp_dir().join(format!("wxreg-{}-{:?}.pid", std::process::id(), std::time::Instant::now())).to_str().unwrap().replace(' ', "_");
     let _ = std::fs::remove_file(&pidfile);
     let mut kills: Vec<Vec<usize>> = vec![];
@@ -46,7 +46,7 @@ async fn run_case(acts: &str, minters: Arc<Vec<mpsc::Sender<mpsc::Sender<Id>>>>)
     let wx = Watchexec::new({ let sh = sh.clone(); move |mut action| {
         let mut s = sh.lock().unwrap();
         let s = &mut *s;
-        if s.step >= s.script.len() { action.quit_gracefully(Signal::Terminate, Duration::from_millis(300)); return action; }
+        if s.step >= s.script.len() { if abort { action.quit(); } else { action.quit_gracefully(Signal::Terminate, Duration::from_millis(300)); } return action; }
         let ops = s.script[s.step].clone(); s.step += 1;
         for op in ops {
             let n: usize = op[1..].parse().unwrap();
@@ -111,7 +111,7 @@ fn main() {
     for line in stdin.lock().lines() {
         let line = line.unwrap(); let f: Vec<&str> = line.split(' ').collect();
         let rt = tokio::runtime::Builder::new_multi_thread().worker_threads(4).enable_all().build().unwrap();
-        let r = rt.block_on(run_case(f[2], minters.clone()));
+        let r = rt.block_on(run_case(f[2], f.get(3) == Some(&"abort"), minters.clone()));
         rt.shutdown_background();
         writeln!(o, "{} {}", f[0], r).unwrap(); o.flush().unwrap();
     }
